@@ -13,7 +13,9 @@ NAN = float("nan")
 
 # ------------------------------------------------------------------ tokenizers
 
-WORD_ALPHABETS = ["ab", "abc", "abcxyz01", "aé", "ßa日本", "aéb"]
+# "aAbB" / "aAéÉ": tokens that differ only in letter case (a case-folding comparison
+# anywhere in the library would identify or tie them)
+WORD_ALPHABETS = ["ab", "abc", "abcxyz01", "aé", "ßa日本", "aéb", "aAbB", "aAéÉ"]
 DELIM_CHOICES = [",", ";", "|", "--", " ", "\t", "/"]
 
 
@@ -44,7 +46,7 @@ def vocabulary(draw, tokcfg):
     """2..14 distinct words that the tokenizer keeps intact, skew-weighted."""
     kind = tokcfg["kind"]
     if kind == "qgram":
-        alpha = draw(st.sampled_from(["ab", "abc", "ab ", "aé", "abß"]))
+        alpha = draw(st.sampled_from(["ab", "abc", "ab ", "aé", "abß", "aAb"]))
         words = draw(st.lists(st.text(alphabet=alpha, min_size=1, max_size=3), min_size=2,
                               max_size=8, unique=True))
         return words
@@ -368,13 +370,18 @@ def sim_threshold(draw, measure, tokcfg, lvals, rvals):
 
 
 @st.composite
-def overlap_threshold(draw, tokcfg, lvals, rvals):
+def overlap_threshold(draw, tokcfg, lvals, rvals, fractional=False):
     tok = oracle.Tok(tokcfg, True)
     mx = 1
     for v in list(lvals) + list(rvals):
         if not oracle.is_missing(v):
             mx = max(mx, len(set(tok(v))))
-    return draw(st.integers(1, min(mx + 1, 8)))
+    t = draw(st.integers(1, min(mx + 1, 8)))
+    if fractional and draw(st.integers(0, 5)) == 0:
+        # overlap_join / OverlapFilter accept any positive number; an overlap is integral, so
+        # 2.5 means ">= 3", "> 2" and an empty '=' result
+        return t + draw(st.sampled_from([0.5, -0.5, 0.25, 0.999]))
+    return t
 
 
 # ------------------------------------------------------------------ config
@@ -409,9 +416,13 @@ def n_jobs_value(draw, nrows):
 def common_config(draw, L, R, score=None):
     l_out = draw(out_attrs(L))
     r_out = draw(out_attrs(R))
-    if R.get("same_object") and l_out and draw(st.booleans()):
-        # same attributes requested on both sides of a self-join, in another order
-        r_out = list(draw(st.permutations(l_out)))
+    if R.get("same_object") and draw(st.booleans()):
+        # the same (>= 2 distinct) attributes requested on both sides of a self-join, in
+        # another order
+        names = col_names(L)
+        k = draw(st.integers(2, len(names)))
+        l_out = list(draw(st.permutations(names)))[:k]
+        r_out = draw(st.sampled_from([l_out[::-1], l_out[1:] + l_out[:1]]))
     return {
         "l_out": l_out,
         "r_out": r_out,
@@ -437,7 +448,7 @@ def set_join_case(draw, tier, measures=SET_JOIN_MEASURES, p_empty=1, missing=Non
     lv = canon.table_column(L, L["attr"])["values"]
     rv = canon.table_column(R, R["attr"])["values"]
     if measure == "OVERLAP":
-        thr = draw(overlap_threshold(tokcfg, lv, rv))
+        thr = draw(overlap_threshold(tokcfg, lv, rv, fractional=True))
     else:
         thr = draw(sim_threshold(measure, tokcfg, lv, rv))
     case = {"measure": measure, "tok": tokcfg, "L": L, "R": R, "threshold": thr,
@@ -451,7 +462,8 @@ def set_join_case(draw, tier, measures=SET_JOIN_MEASURES, p_empty=1, missing=Non
 # ------------------------------------------------------------------ edit distance strings
 
 @st.composite
-def ed_strings(draw, n, maxlen=12, p_missing=0, alphabets=("ab", "abc", "ab ", "abé")):
+def ed_strings(draw, n, maxlen=12, p_missing=0,
+               alphabets=("ab", "abc", "ab ", "abé", "aAb")):
     alpha = draw(st.sampled_from(list(alphabets)))
     ch = st.sampled_from(list(alpha))
     seeds = draw(st.lists(st.text(alphabet=alpha, min_size=0, max_size=maxlen), min_size=1,
@@ -498,7 +510,7 @@ def ed_tables(draw, tier, missing=None, max_extra=2, self_join=None):
         nr = nl
     if missing is None:
         missing = draw(st.sampled_from(["none", "none", "none", "left", "right", "both"]))
-    alpha = draw(st.sampled_from(["ab", "abc", "ab ", "abé"]))
+    alpha = draw(st.sampled_from(["ab", "abc", "ab ", "abé", "aAb"]))
     vals = draw(ed_strings(nl + nr, ml, 0, (alpha,)))
     lv, rv = vals[:nl], vals[nl:]
     if missing in ("left", "both", "all", "lall"):
